@@ -4,8 +4,9 @@
      {op: "newtape"}                                   a new, empty tape image
      {op: "write", name, type, len, id, ok}            a whole file written (OPEN..PRINT#..CLOSE, SAVE, BSAVE)
      {op: "reopen"}                                    the image is closed and attached again: tape at the start
-     {op: "read", name, found, type, skipped: [names], pieces: [[id, off, n], ...]}
-         the file is opened by name and read to its end; `pieces` is the read-back content as maximal runs
+     {op: "read", name, want: [types], found, type, skipped: [names], pieces: [[id, off, n], ...]}
+         the file is opened by name (name "": the next file of a type the statement wants) and read to its end;
+         want = the types the reading statement accepts; `pieces` is the read-back content as maximal runs
          "n bytes from offset off of the content written as file id" (id -1: bytes that are none of this tape's data)
    The driver reads only files that lie at or after the current tape position (closed fragment), so the reference
    demands: found, with the written type, exactly the file's own bytes, the files passed over reported as skipped in
@@ -41,7 +42,7 @@ Step(e) ==
            /\ viol' = IF e.ok THEN viol ELSE Append(viol, <<l, "write_failed">>)
       [] e.op = "reopen" -> /\ files' = files /\ fpos' = 1 /\ viol' = viol
       [] e.op = "read" ->
-           LET r0  == RefRead(files, fpos, e.name)
+           LET r0  == RefReadW(files, fpos, e.name, {e.want[i] : i \in 1..Len(e.want)})
                ref == IF r0.found THEN r0 @@ [id |-> files[r0.next - 1].id, len |-> files[r0.next - 1].len]
                       ELSE r0
                v   == Verdict(e, ref)
